@@ -94,7 +94,7 @@ PROPS["C01"] = {
     "technique": "Verus contracts on the real condition parser (parse_opcode, sanitizers, list helpers, SpendId::parse, parse_args extracted verbatim) proved equal to a table-driven rule spec over all allocator trees, opcodes and flag words",
     "level_text": "Deductive proof (Verus/Z3), unbounded in tree shape, list length and flags: each condition is accepted or rejected and decoded exactly as the rule table (DESIGN Appendix A) prescribes (tier 1, iff), and whenever parse_conditions / process_single_spend accept a spend, its summary (costs, relative/absolute locks, birth assertions, reserved fee, added amounts, created-coin set, coin identity) equals the fold of the per-condition effect spec over the condition list (tier 2).",
     "level_note": "Assumed: clvmr Allocator accessor contracts (abstract immutable tree), bitflags semantics with constants read from flags.rs each run, 2-byte cost table entries (decided by native-eval under C04). Error codes are not part of the contract, accept/reject and the decoded value are.",
-    "components": [V("conditions_effects")],
+    "components": [V("conditions_effects"), V("mempool_visitor")],
     "assumptions": [
         "clvmr::Allocator accessor contracts over an abstract immutable tree (shims/clvmr.rs)",
         "bitflags contains() == bit test on the constants read from flags.rs",
@@ -103,7 +103,7 @@ PROPS["C01"] = {
     "not_covered": [
         "the summary contract of parse_conditions is one-directional (accept ==> summary equals the rule spec); rejection for un-modelled reasons (bad keys, message modes) is not characterised",
         "announcement / concurrent / message / ephemeral bookkeeping and validate_conditions' deferred cross-spend checks; signature pairs (C05)",
-        "MempoolVisitor flag bookkeeping (see C19)",
+        "MempoolVisitor::post_spend / post_process (iterator closures); new_spend and condition are under contract (mempool_visitor unit)",
     ],
 }
 PROPS["C06"] = {
